@@ -17,6 +17,9 @@ def main(chk: core.Check, replay):
                       backend="jax", fams=[3, 4] if quick else [1, 2, 3, 4])
     structural.run(chk, "C03", quick_models=120, thorough_models=1500, layout=True)
     tracesleg.run(chk, "C03")
+    # missing_values and functions with a missing_variables argument (sub-models of a component split), backend jax
+    from .c13 import split_corpus
+    split_corpus(chk, "C03", ("jax",), 80 if quick else 600)
 
 
 if __name__ == "__main__":
